@@ -49,9 +49,22 @@ var verifC15Audio = []verifC15Codec{
 
 var verifC15Feedback = [][]RTCPFeedback{
 	{{Type: "nack"}, {Type: "nack", Parameter: "pli"}},
-	{{Type: "nack"}},
 	{{Type: "goog-remb"}, {Type: "nack", Parameter: "pli"}},
+	{{Type: "nack"}},
 	{},
+}
+
+// Curated codec lists (indices into the template tables) for the quick tier:
+// exact-only, partial-only, mixed, none, duplicates and order-sensitive cases.
+var verifC15Lists = map[string][2][][]int{
+	"video": {
+		{{0}, {1}, {1, 3}, {3, 1}, {5, 7}, {0, 1}, {10}, {8, 9}, {2, 4}},
+		{{0}, {1}, {2, 3}, {4, 1}, {6, 7}, {0, 2}, {9, 8}, {3}, {7, 5}, {2, 2}},
+	},
+	"audio": {
+		{{0}, {1}, {0, 3}, {3, 4}, {2, 0}},
+		{{0}, {1}, {2}, {3}, {0, 3}, {1, 0}, {4, 3}},
+	},
 }
 
 // --- the reference matcher (written from the documented rules, not from the code)
@@ -170,16 +183,42 @@ func verifC15(kind string, table []verifC15Codec) {
 		nTpl = len(table)
 	}
 	m := &MediaEngine{}
-	localPTs := []PayloadType{96, 98, 100, 120}
-	nl := 1 + verif.Choice("n_local", verif.Param("max_local", 2))
+	localPTs := []PayloadType{96, 100, 101}
+	curated := verif.Param("curated", 0) == 1
+	nFb := verif.Param("feedback_sets", len(verifC15Feedback))
+	var localList, remoteList []int
+	if curated {
+		ls := verifC15Lists[kind]
+		localList = ls[0][verif.Choice("local_list", len(ls[0]))]
+		remoteList = ls[1][verif.Choice("remote_list", len(ls[1]))]
+	} else {
+		nl := 1 + verif.Choice("n_local", verif.Param("max_local", 2))
+		for i := 0; i < nl; i++ {
+			localList = append(localList, verif.Choice("local_tpl", nTpl))
+		}
+		nr := 1 + verif.Choice("n_remote", verif.Param("max_remote", 2))
+		for i := 0; i < nr; i++ {
+			remoteList = append(remoteList, verif.Choice("remote_tpl", nTpl))
+		}
+	}
+	nl, nr := len(localList), len(remoteList)
+	swapPT := verif.Bool("local_pt_order")
 	locals := []*verifC15Side{}
 	for i := 0; i < nl; i++ {
-		t := table[verif.Choice("local_tpl", nTpl)]
+		t := table[localList[i]]
 		s := &verifC15Side{t: t, mime: kind + "/" + t.name}
 		s.clock = verif.U32("local_clock")
 		s.ch = verif.U16("local_channels")
-		s.pt = localPTs[verif.Choice("local_pt", len(localPTs))]
-		s.fb = verifC15Feedback[verif.Choice("local_fb", len(verifC15Feedback))]
+		// payload types that collide with the remote's numbering in either order
+		if swapPT {
+			s.pt = localPTs[(i+1)%len(localPTs)]
+		} else {
+			s.pt = localPTs[i]
+		}
+		s.fb = verifC15Feedback[0]
+		if i == 0 {
+			s.fb = verifC15Feedback[verif.Choice("local_fb", nFb)]
+		}
 		err := m.RegisterCodec(RTPCodecParameters{
 			RTPCodecCapability: RTPCodecCapability{MimeType: s.mime, ClockRate: s.clock, Channels: s.ch, SDPFmtpLine: t.fmtp, RTCPFeedback: s.fb},
 			PayloadType:        s.pt,
@@ -199,14 +238,16 @@ func verifC15(kind string, table []verifC15Codec) {
 	}
 
 	remotePTs := []string{"100", "96", "101", "102"}
-	nr := 1 + verif.Choice("n_remote", verif.Param("max_remote", 2))
 	remotes := []*verifC15Side{}
 	md := &sdp.MediaDescription{MediaName: sdp.MediaName{Media: kind, Protos: []string{"UDP", "TLS", "RTP", "SAVPF"}}}
 	for i := 0; i < nr; i++ {
-		t := table[verif.Choice("remote_tpl", nTpl)]
+		t := table[remoteList[i]]
 		n, _ := strconv.Atoi(remotePTs[i])
 		s := &verifC15Side{t: t, mime: kind + "/" + t.name, clock: t.clock, ch: t.ch, pt: PayloadType(n)}
-		s.fb = verifC15Feedback[verif.Choice("remote_fb", len(verifC15Feedback))]
+		s.fb = verifC15Feedback[2]
+		if i == 0 {
+			s.fb = verifC15Feedback[verif.Choice("remote_fb", nFb)]
+		}
 		md.MediaName.Formats = append(md.MediaName.Formats, remotePTs[i])
 		rtpmap := remotePTs[i] + " " + t.name + "/" + strconv.Itoa(int(t.clock))
 		if t.ch != 0 {
